@@ -89,7 +89,7 @@ def showObs (o : Obs) : String :=
     | none => s!"{o.avail},{o.used}"
     | some (a, u) => s!"{o.avail},{o.used},{a},{u}"
   showRes o.res ++ "/b=" ++ showBytes o.bytes ++ "/o=" ++ showOffered o.offered ++ "/c=" ++ c
-    ++ "/fd=" ++ "|".intercalate (o.fd.map showBytes)
+    ++ "/fd=" ++ toString o.fd.length ++ ":" ++ "|".intercalate (o.fd.map showBytes)
 
 /-- ranges of `fin` that differ from `ini` as `r:off:bytes` -/
 def diffRegion (r : Nat) (ini fin : Bytes) : List String :=
